@@ -202,11 +202,29 @@ def cases(draw, tier='quick'):
                 # missing_value != _FillValue); the mask must still survive
                 other = [x for x in DECLARED[code] if x != fill][0]
                 fillattrs[style.split('+')[1]] = other
+        vattrs = draw(attr_dict(S.VAR_ATTRS, 3))
+        if code in ('f4', 'i2', 'i4') and not special and \
+                draw(st.integers(0, 3)) == 0:
+            # CF range attributes typed WIDER than the variable (float64 /
+            # Python numbers on a float32 or integer variable), with values
+            # the variable's own type cannot hold exactly; they enclose the
+            # data, so a reader that applies them masks nothing
+            lo = float(min(data)) - 0.1 - draw(st.integers(0, 6)) / 7.0
+            hi = float(max(data)) + 0.1 + draw(st.integers(0, 6)) / 3.0
+            rstyle = draw(st.sampled_from(['valid_min+valid_max',
+                                           'valid_range', 'actual_range',
+                                           'valid_min', 'valid_max']))
+            if 'valid_min' in rstyle:
+                vattrs['valid_min'] = {'py': 'float', 'v': lo}
+            if 'valid_max' in rstyle:
+                vattrs['valid_max'] = {'py': 'float', 'v': hi}
+            if rstyle in ('valid_range', 'actual_range'):
+                vattrs[rstyle] = {'nd': 'f8', 'v': [lo, hi]}
         variables.append(dict(name=name, dims=vd, dtype=code, data=data,
                               mask=mask, fill=fill, fillattrs=fillattrs,
                               coord=coord, tc=draw(st.sampled_from(
                                   TYPECODES[code])),
-                              attrs=draw(attr_dict(S.VAR_ATTRS, 3))))
+                              attrs=vattrs))
     # every unlimited dimension is used by at least one variable
     for u in unlset:
         if u not in used:
@@ -308,6 +326,10 @@ def check_case(case):
         r.label('variable>16MiB')
     for sv in fs['vars']:
         r.label('dtype:' + sv['dtype'])
+        if any(k in sv.get('attrs', {}) for k in ('valid_min', 'valid_max',
+                                                  'valid_range',
+                                                  'actual_range')):
+            r.label('range-attrs-wider-than-variable')
         if sv.get('fillattrs'):
             r.label('fill:' + '+'.join(sorted(sv['fillattrs'])))
             if len(set(sv['fillattrs'].values())) > 1:
